@@ -57,7 +57,9 @@ def spelled(uni, slot, mod, code):
     rel = posixpath.relpath(target, base)
     if rel.startswith(".."):
         raise ToolError("import from %s to %s cannot be spelled with code %r" % (slot, mod, code))
-    dotted = rel.replace("/", ".")
+    dotted = "" if rel == "." else rel.replace("/", ".")      # bare relative import: `from . import x` / `from .. import x`
+    if code == 1 and not dotted:
+        raise ToolError("the importer's own package cannot be spelled as an absolute import (%s -> %s)" % (slot, mod))
     return {0: ".", 1: "", 2: ".."}[code] + dotted
 
 
@@ -379,9 +381,9 @@ def pyextract(text, uni=None, slot=None):
             elif isinstance(st, ast.ClassDef):
                 visit(st.body, _usefixtures(st.decorator_list))
             elif isinstance(st, ast.ImportFrom):
-                if st.module == "pytest" or (st.module is None):
+                if st.module == "pytest":
                     continue
-                mod = "." * (st.level or 0) + st.module
+                mod = "." * (st.level or 0) + (st.module or "")     # bare relative import: module is None
                 for al in st.names:
                     if al.name == "*":
                         items.append({"k": "star", "name": "-", "deps": [], "scope": 0, "autouse": False,
